@@ -61,6 +61,9 @@ ASSUMPTIONS = [
     "the analytic solver evaluates SymPy's closed-form (cofactor-type) solution in floating point, which is not backward stable: its bins are "
     "checked only where rho = prod_i(sum_j|T_ij|)/|det T| <= 1e10 (relative determinant error ~u*rho; measured residual excess <= 1e-12*B up to "
     "rho = 1e12, growing like (u*rho)^2 beyond); bins with larger rho are counted unstable for that solver only",
+    "backend independence (option sweep) is demanded within ETA*(B + B') + 4F, F the first-order propagation of the kernels' forward rounding budget "
+    "(_an.bin_tol, the bound C01/C05 hold every backend to) through r = S00 - S^H T^-1 S; bins where that budget exceeds 1e-2 of the smallest "
+    "singular value of the amplitude-scaled Gram matrix are counted unstable for this claim only",
 ]
 RULE = ("cases = (record family: white/coloured/offset+trend/correlated inputs, q in 1..4, gains+delays/FIR couplings+independent noise, "
         "analysis options order/olap/Jdes/Kdes/scheduler/window) x sub-check (bound, least-squares reference, exact combination, permutation, "
@@ -73,7 +76,13 @@ RULE = ("cases = (record family: white/coloured/offset+trend/correlated inputs, 
         "VERIF_SEED, the three systems functions AS TRANSLATED (Gen/Miso.lean) executed by the driver on the base estimates of every ltf call the real "
         "function made (recorded with the channels it was called with) vs the real function's own Tmat/Svec/S00/Hvec or dict `result` (assembly: "
         "64 ulp of the bin's scale) and its returned ASD (the tolerance above), once with stand-in solvers (Gaussian elimination on what the generated "
-        "code hands over / on the translated SymPy equations) and once with the real solver's output")
+        "code hands over / on the translated SymPy equations) and once with the real solver's output; analysis-option sweep (every run): one strong + "
+        "weak inputs, output weakly coupled to the strong one, N 500..900, Jdes 5..10; every (backend in numba/numpy/auto[/cuda where installed], order in "
+        "-1..2) pair for q = 1 (SISO, numeric, analytic) and q = 2 (numeric, analytic), scheduler in lpsd/ltf/vectorized_ltf/new_ltf rotating with "
+        "VERIF_SEED (4 consecutive seeds = backend x order x scheduler), window (default/kaiser by name, psll 40..200, hann), olap (default, 0..0.75), "
+        "band, bmin, Lmin, Kdes, num_patch_pts drawn per group; one group = the same records and options under every backend: all sub-claims per "
+        "backend + backend independence of the residual within the kernels' rounding budget; distinct by (sub-check, solver, q, coupling, order, "
+        "scheduler, backend)")
 
 U = 2.0 ** -53
 ETA = 1e-9          # power-like comparisons: |a - b| <= ETA * B, B = S00 + 2 sum|H_i||S_i| + sum|H_j||H_i||T_ji| (magnitude of the formula's terms)
@@ -200,6 +209,10 @@ def case_desc(c) -> Dict[str, Any]:
          "kw": dict(c["kw"]), "noise_rel": c["noise_rel"], "big": c.get("big", False), "digest": case_digest(c)}
     if c.get("stream") == "repr":
         d.update({"stream": "repr", "reps_in": list(c["reps_in"]), "rep_out": c["rep_out"], "as_tuple": bool(c["as_tuple"])})
+    if c.get("stream") == "sweep":
+        d.update({"stream": "sweep", "group_backends": list(c.get("group_backends", []))})
+        if "band" in d["kw"]:
+            d["kw"]["band"] = [float(t) for t in d["kw"]["band"]]
     return d
 
 
@@ -215,6 +228,9 @@ class Ingredients:
         self.nf = len(self.f)
         self.navg = np.asarray(r0.navg)
         self.L = np.asarray(r0.L)
+        self.D = r0.D                                   # segment starts per bin and window sums: only the SCALE of the kernels' rounding budget
+        self.S2 = np.asarray(r0.S2, dtype=float)        # (backend-independence claim of the option sweep) is derived from them
+        self.fs = float(fs)
         self.S00 = np.asarray(r0.Gxx, dtype=float)
         self.q = q
         self.T = np.zeros((q, q, self.nf), dtype=complex)
@@ -265,6 +281,21 @@ class Ingredients:
 
     def mask(self, solver: str) -> np.ndarray:
         return self.good_ana if "analytic" in solver else self.good
+
+    def for_output(self, xs: List[np.ndarray], y: np.ndarray, fs: float, kw: Dict[str, Any]) -> "Ingredients":
+        """ingredients of the same inputs (T taken over: the same compute_spectrum calls on the same records) with another output record"""
+        from speckit import compute_spectrum
+        o = object.__new__(Ingredients)
+        o.__dict__.update(self.__dict__)
+        r0 = compute_spectrum(np.asarray(y), fs, **kw)
+        o.S00 = np.asarray(r0.Gxx, dtype=float)
+        o.S = np.zeros((self.q, self.nf), dtype=complex)
+        for i in range(self.q):
+            o.S[i] = compute_spectrum([np.asarray(xs[i]), np.asarray(y)], fs, **kw).Gxy
+        ymax = float(np.max(np.abs(y))) if len(y) else 0.0
+        o.resolved = (o.S00 >= RESOLVED * 2.0 * self.L.astype(float) * ymax * ymax / fs) & (o.S00 > 0)
+        o.solve()
+        return o
 
     def remixed(self, A: np.ndarray) -> "Ingredients":
         """ingredients of x' = A x obtained algebraically (T' = A T A^H, S' = A S): only used for the SCALE B' of the tolerance"""
@@ -697,7 +728,11 @@ class Checker:
                       {"bin": k, "observed": float(a[k]), "expected": float(b[k]), "tol": float(tol[k])})
         return True
 
-    def check_case(self, c, subs=("all",)) -> None:
+    def check_case(self, c, subs=("all",), solvers=None, exact_solvers=None, variant_solvers=None):
+        """all sub-claims on one case (subs = ("all",)), or the selected groups: "main" (bound, least-squares optimum, analytic = numeric,
+        q = 1 identities) is always evaluated, "exact" (exact static combination) and "variants" (permutation, invertible re-mix) on request;
+        `solvers` / `exact_solvers` / `variant_solvers` restrict the entry points (default: every solver of solvers_for(q), plus SISO for q = 1).
+        Returns (ingredients, {solver: residual power}) or None when the underlying analysis itself raised."""
         P = self.P
         q = c["q"]
         xs, y, fs, kw = c["xs"], c["y"], c["fs"], c["kw"]
@@ -706,12 +741,13 @@ class Checker:
         except Exception as ex:
             P.hit("skipped_compute_spectrum_error")
             P.notes.append(f"compute_spectrum raised {ex!r} for {kw}"[:160])
-            return
+            return None
         c["_S00"] = ing.S00
         self.tally(ing, q)
-        keyb = (q, c["family"], c["coupling"], kw.get("order", 0), kw.get("scheduler", "vectorized_ltf"))
+        keyb = (q, c["family"], c["coupling"], kw.get("order", 0), kw.get("scheduler", "vectorized_ltf")) + ((kw["backend"],) if "backend" in kw else ())
         res: Dict[str, np.ndarray] = {}
-        for sv in self.solvers_for(q) + (["siso"] if q == 1 else []):
+        all_solvers = self.solvers_for(q) + (["siso"] if q == 1 else [])
+        for sv in (all_solvers if solvers is None else [s_ for s_ in all_solvers if s_ in solvers]):
             asd = self.run_fn(c, "bound", sv, xs, y, ing)
             if asd is None:
                 continue
@@ -754,14 +790,16 @@ class Checker:
                         if self.cmp_power(c, "siso_vs_miso", sv, res[sv], res["siso"], 2 * ing.B, ing.mask(sv), "SISO function gives"):
                             P.nontrivial.add(("siso_vs_miso", sv) + keyb)
         # (2) exact static combination
-        ye = sum(cj * xj for cj, xj in zip(c["coeffs"], xs))
-        try:
-            inge = Ingredients(xs, ye, fs, kw)
-        except Exception:
-            inge = None
+        inge = None
+        if "all" in subs or "exact" in subs:
+            ye = sum(cj * xj for cj, xj in zip(c["coeffs"], xs))
+            try:
+                inge = ing.for_output(xs, ye, fs, kw) if c.get("stream") == "sweep" else Ingredients(xs, ye, fs, kw)
+            except Exception:
+                inge = None
         if inge is not None:
             c["_S00"] = inge.S00
-            for sv in self.solvers_for(q) + (["siso"] if q == 1 else []):
+            for sv in (all_solvers if exact_solvers is None else [s_ for s_ in all_solvers if s_ in exact_solvers]):
                 asd = self.run_fn(c, "exact_combination", sv, xs, ye, inge)
                 if asd is None:
                     continue
@@ -780,7 +818,7 @@ class Checker:
                               {"bin": k, "coeffs": c["coeffs"], "observed": float(asd[k]), "Gyy": float(inge.S00[k])})
             c["_S00"] = ing.S00
         # (3) permutation and invertible re-mix of the inputs
-        if "numeric" in res:
+        if "numeric" in res and ("all" in subs or "variants" in subs):
             variants = []
             if q >= 2:
                 Pm = np.eye(q)[c["perm"]]
@@ -791,7 +829,7 @@ class Checker:
                 ingv = ing.remixed(M)
                 P.unstable += int((ing.good & ~ingv.good).sum())
                 for sv in self.solvers_for(q):
-                    if sv not in res:
+                    if sv not in res or (variant_solvers is not None and sv not in variant_solvers):
                         continue
                     g = ing.mask(sv) & ingv.mask(sv)
                     asd = self.run_fn(c, name, sv, xv, y, _with_good(ingv, g))
@@ -800,6 +838,7 @@ class Checker:
                     if self.cmp_power(c, name, sv, asd ** 2, res[sv], ing.B + ingv.B, g, "original inputs give"):
                         P.nontrivial.add((name, sv) + keyb)
         c.pop("_S00", None)
+        return ing, res
 
 
 def _with_good(ing: Ingredients, g: np.ndarray) -> Ingredients:
@@ -1258,6 +1297,269 @@ def repr_stream(ck: "Checker", ctx, seed: int, intensive: bool) -> None:
 
 
 
+# ------------------------------------------------------------------------------------------------ analysis-option sweep
+# The property quantifies over ALL analysis options: every keyword the three functions forward to ltf / SpectrumAnalyzer.  The generated-case
+# stream above draws order / scheduler / olap / window / Jdes / Kdes / bmin / Lmin but leaves `backend` (and `band`, `new_ltf`, explicit
+# win="kaiser") at their defaults, so that every kernel-dispatch branch other than the Numba one was never executed by this oracle (wave-5 miss
+# C15e: channels handed over swapped in the branch order = -1 / two-channel / NumPy backend).  This stream is SYSTEMATIC: on every run each
+# (backend, order) pair is executed for q = 1 (SISO, numeric, analytic) and q = 2 (numeric, analytic); the scheduler of a pair rotates with
+# VERIF_SEED so that four consecutive seeds cover backend x order x scheduler; window / psll / olap / band / bmin / Lmin / Jdes / Kdes /
+# num_patch_pts are drawn per group.  One GROUP = one record set + one option set evaluated under every backend: all sub-claims of the property
+# per backend, plus "the result does not depend on the backend" (the property's residual is a function of the records and the plan; which kernel
+# family evaluates the per-segment DFTs is not an input of it) within the kernels' forward rounding budget (_an.bin_tol, the model C01/C05 hold
+# every backend to).  Records: one STRONG input, the other inputs 10..100x weaker in amplitude, an output weakly coupled (gain 0.03..0.2) to the
+# strong input — Gyy << Gxx, so that exchanged channels / exchanged auto-spectra / a spectrum of the wrong record cannot hide.  Short records
+# (N <= 900 quick) keep K*L of every bin below the size from which BLAS goes multi-threaded (the NumPy kernels are 20x slower on a busy machine).
+ORDERS = [-1, 0, 1, 2]
+SCHEDS_ALL = ["lpsd", "ltf", "vectorized_ltf", "new_ltf"]
+THETA_MAX = 1e-2    # backend independence: bins where the kernels' budget, relative to the smallest singular value of the scaled Gram matrix,
+                    # exceeds this are counted unstable (first-order propagation of the budget through the solve would not be a bound)
+
+
+def sweep_backends() -> List[str]:
+    """reference backend first; `numba` / `cuda` only where the installation provides them (requesting them otherwise raises by contract)"""
+    from speckit import core
+    b = (["numba"] if getattr(core, "_NUMBA_ENABLED", False) else []) + ["numpy", "auto"]
+    if getattr(core, "_CUDA_ENABLED", False):
+        b.append("cuda")
+    return b
+
+
+def _draw_sweep_kw(rng, fs: float) -> Dict[str, Any]:
+    kw: Dict[str, Any] = {"Jdes": int(rng.integers(5, 11)), "Kdes": int(rng.choice([2, 3, 5, 8, 12, 20]))}
+    ol = str(rng.choice(["default", "default", "0.0", "0.25", "0.5", "0.66", "0.75"]))
+    wk = int(rng.integers(0, 6))
+    ps = float(rng.choice([40.0, 60.0, 100.0, 150.0, 200.0]))
+    u = rng.random(4)
+    bm, lm, npp = float(rng.choice([1.5, 2.0, 3.0])), int(rng.choice([4, 16, 50])), int(rng.choice([5, 20]))
+    b_lo, b_hi = float(rng.uniform(0.004, 0.05)), float(rng.uniform(0.15, 0.5))
+    if ol != "default":
+        kw["olap"] = float(ol)
+    if wk == 1:
+        kw["win"] = "hann"
+    elif wk == 2:
+        kw["psll"] = ps                      # default window (np.kaiser) with another side-lobe level
+    elif wk == 3:
+        kw["win"], kw["psll"] = "kaiser", ps
+    elif wk == 4:
+        kw["win"] = "kaiser"                 # by name, default psll
+    if u[0] < 0.3:
+        kw["bmin"] = bm
+    if u[1] < 0.3:
+        kw["Lmin"] = lm
+    if u[2] < 0.35:
+        kw["band"] = (fs * b_lo, fs * b_hi)
+    if u[3] < 0.2:
+        kw["num_patch_pts"] = npp
+    return kw
+
+
+def build_sweep_case(sub_seed: int, q: int, thorough: bool = False) -> Dict[str, Any]:
+    """records, couplings, exact-combination coefficients, mixing matrix and the option set WITHOUT order / scheduler / backend (the sweep sets
+    them), all from sub_seed"""
+    rng = np.random.default_rng(int(sub_seed))
+    N = int(rng.integers(500, 901))          # both tiers: the thorough tier spends its time on more groups, not on longer records
+    fs = float(rng.choice([1.0, 2.0, 100.0, float(rng.uniform(0.5, 50.0))]))
+    scale = float(10.0 ** rng.uniform(-2, 2))
+    cpl = str(rng.choice(COUPLINGS))
+    strong = int(rng.integers(0, q))                               # the strong input is not always the first channel
+    xs = []
+    for i in range(q):
+        v = rng.standard_normal(N)
+        if rng.random() < 0.4:
+            v = _colour(rng, v)
+        v = v / max(float(np.std(v)), 1e-300)
+        amp = 1.0 if i == strong else float(10.0 ** rng.uniform(-2, -1))
+        xs.append(scale * amp * v)
+    if rng.random() < 0.25:                                        # offsets: with order = -1 they leak through the window (still the same claims)
+        xs = [v + scale * float(rng.uniform(-3, 3)) for v in xs]
+
+    def couple(v):
+        if cpl == "static":
+            return v
+        if cpl == "delay":
+            return np.roll(v, int(rng.integers(1, 6)))
+        return np.convolve(v, rng.standard_normal(3), mode="full")[:N]
+    sig = np.zeros(N)
+    gains = []
+    for i, v in enumerate(xs):
+        g = float(rng.choice([-1.0, 1.0])) * (float(10.0 ** rng.uniform(-1.5, -0.7)) if i == strong else float(rng.uniform(0.5, 3.0)))
+        gains.append(g)
+        sig = sig + g * couple(v)
+    noise_rel = float(10.0 ** rng.uniform(-2.3, -1.3))
+    y = sig + scale * noise_rel * rng.standard_normal(N)
+    kw = _draw_sweep_kw(rng, fs)
+    coeffs = [float(rng.choice([-1.0, 1.0]) * 10.0 ** rng.uniform(-1, 1)) for _ in range(q)]
+    A = np.eye(q)
+    for _ in range(50):
+        A = rng.standard_normal((q, q))
+        if q == 1:
+            A = np.array([[float(rng.choice([-1.0, 1.0]) * 10.0 ** rng.uniform(-1, 1))]])
+        if np.linalg.cond(A) <= 50:
+            break
+    else:
+        A = np.eye(q) + 0.1 * rng.standard_normal((q, q))
+    perm = [int(p) for p in rng.permutation(q)]
+    if q >= 2 and perm == list(range(q)):
+        perm = perm[1:] + perm[:1]
+    return {"stream": "sweep", "sub_seed": int(sub_seed), "q": q, "N": N, "fs": fs, "family": "sweep", "coupling": cpl, "xs": xs, "y": y, "kw": kw,
+            "coeffs": coeffs, "A": A, "perm": perm, "noise_rel": noise_rel, "big": bool(thorough), "strong": strong, "gains": gains}
+
+
+def sweep_fit_plan(c: Dict[str, Any]) -> None:
+    """keep the group cheap: an option set whose plan has more than 40 bins (new_ltf with bmin > 1 returns ~100) or cannot be planned at all
+    loses its optional plan-shaping keys one by one (deterministic: depends on the case only)"""
+    from speckit.analysis import SpectrumAnalyzer
+    for drop in (None, "bmin", "Lmin", "band", "num_patch_pts"):
+        if drop is not None:
+            if drop not in c["kw"]:
+                continue
+            c["kw"].pop(drop)
+        try:
+            nf = len(SpectrumAnalyzer(np.asarray(c["y"]), c["fs"], **c["kw"]).plan()["f"])
+        except Exception:
+            continue
+        if 1 <= nf <= 40:
+            return
+
+
+def kernel_budget(c: Dict[str, Any], ing: Ingredients):
+    """per bin: F = first-order propagation of the kernels' forward rounding budget to the residual power, theta = that budget relative to the
+    smallest singular value of the scaled Gram matrix.
+    _an.bin_tol: a backend's XX / YY / XY of one bin are within g*a*a, g*b*b, g*a*b of the exact windowed-DFT means (a, b = max over the bin's
+    segments of sum|x w|; g = 64u(L+4)min(L+1, 1/|sin w|), x8 for polynomial detrending) — two backends differ by at most twice that; in PSD
+    units (x c = 2/(fs*S2)): dS00 <= 2gc a_y^2, dS_i <= 2gc a_i a_y, dT_ij <= 2gc a_i a_j.  r = S00 - S^H T^-1 S has
+    dr = dS00 - 2Re(H^H dS) + H^H dT H + (second order), so |dr| <= 2gc (a_y + sum_i |H_i| a_i)^2 =: F to first order; with
+    theta = ||T~^-1|| * ||dT~|| <= 2gc*q / sigma_min(T~), T~_ij = T_ij/(a_i a_j), at most 1e-2 the solution moves by <= 1.02% in the scaled norm and
+    the exact difference is <= 1.03 F; the predicate allows 4 F."""
+    from . import _an as A
+    kw = c["kw"]
+    order = int(kw.get("order", 0))
+    win = kw.get("win", "kaiser")
+    psll = kw.get("psll", 200)
+    chans = [np.abs(np.asarray(v, dtype=float)) for v in c["xs"]] + [np.abs(np.asarray(c["y"], dtype=float))]
+    q, nf = ing.q, ing.nf
+    F = np.full(nf, np.inf)
+    theta = np.full(nf, np.inf)
+    for k in range(nf):
+        L = int(ing.L[k])
+        D = np.asarray(ing.D[k], dtype=np.int64)
+        if L < 1 or len(D) == 0 or not np.isfinite(ing.B[k]) or not (ing.S2[k] > 0):
+            continue
+        w = np.abs(np.asarray(A.window(win if isinstance(win, str) else "kaiser", L, psll), dtype=float))
+        w = np.maximum(w, 0.0) if np.all(np.isfinite(w)) else np.ones(L)
+        a = np.array([float(np.max(np.lib.stride_tricks.sliding_window_view(ch, L)[D] @ w)) for ch in chans]) + 1e-300
+        omega = 2.0 * np.pi * float(ing.f[k]) / ing.fs
+        g = A.bin_tol(L, omega, 1.0, 1.0, order)[0]
+        cf = 2.0 / (ing.fs * float(ing.S2[k]))
+        F[k] = 2.0 * g * cf * (a[q] + float(np.abs(ing.H[:, k]) @ a[:q])) ** 2
+        Ts = ing.T[:, :, k] / np.outer(a[:q], a[:q])
+        try:
+            smin = float(np.linalg.svd(Ts, compute_uv=False)[-1])
+        except np.linalg.LinAlgError:
+            continue
+        theta[k] = 2.0 * g * cf * q / smin if smin > 0 else np.inf
+    return F, theta
+
+
+def sweep_group(ck: "Checker", c0: Dict[str, Any], backends: List[str], full: bool, rot: int = 0):
+    """one record set + option set under every backend of `backends` (the first is the reference of the backend-independence claim)"""
+    P = ck.P
+    q = c0["q"]
+    nb = len(backends)
+    ref = None
+    for bi, be in enumerate(backends):
+        c = dict(c0)
+        c["kw"] = dict(c0["kw"], backend=be)
+        c["group_backends"] = list(backends)
+        kw = c["kw"]
+        P.hit(f"sweep_q{q}_{be}_order{kw.get('order', 0)}")
+        P.hit(f"sweep_sched_{kw.get('scheduler', 'default')}")
+        for name in ("olap", "win", "psll", "bmin", "Lmin", "band", "num_patch_pts"):
+            if name in kw:
+                P.hit(f"sweep_opt_{name}")
+        if full:
+            out = ck.check_case(c)
+        else:
+            # quick tier: bound / optimum / solver agreement / q = 1 identities and the exact combination (numeric, SISO) under EVERY backend;
+            # the analytic solver on the exact combination and the permutation / re-mix re-runs under one backend per group (rotating)
+            subs = ("main", "exact") + (("variants",) if bi == (rot + 1) % nb else ())
+            out = ck.check_case(c, subs=subs, exact_solvers=["numeric", "siso"] + (["analytic"] if bi == rot % nb else []),
+                                variant_solvers=["numeric"])
+        if out is None:
+            continue
+        ing, res = out
+        if ref is None:
+            F, theta = kernel_budget(c, ing)
+            ref = (be, ing, res, F, theta)
+            continue
+        rbe, ring, rres, F, theta = ref
+        P.cases += 1
+        if ing.nf != ring.nf or not np.array_equal(ing.f, ring.f) or not np.array_equal(ing.navg, ring.navg) or not np.array_equal(ing.L, ring.L):
+            ck.viol(c, "backend_independence", "plan", f"backend={be!r} and backend={rbe!r} analyse the same record on different plans "
+                    f"({ing.nf} vs {ring.nf} bins; the backend is not an input of the scheduler)", {"backend_ref": rbe})
+            continue
+        c["_S00"] = ing.S00
+        for sv in res:
+            if sv not in rres:
+                continue
+            g = ing.mask(sv) & ring.mask(sv)
+            st = g & (theta <= THETA_MAX)
+            P.unstable += int((g & ~st).sum())
+            if not st.any():
+                continue
+            d = np.abs(res[sv] - rres[sv])
+            tol = ETA * (ing.B + ring.B) + 4.0 * F
+            r = np.where(st, d / np.where(st, tol, 1.0), 0.0)
+            ck.ratio("backend_independence", float(np.max(r)))
+            P.nontrivial.add(("backend_independence", sv, q, be, rbe, kw.get("order", 0), kw.get("scheduler", "vectorized_ltf"), c["coupling"]))
+            badm = st & ~(d <= tol)
+            if badm.any():
+                k = int(np.argmax(np.where(badm, r, 0)))
+                ck.viol(c, "backend_independence", sv, f"bin {k} (navg={int(ing.navg[k])}): residual power {float(res[sv][k])!r} with backend={be!r} but "
+                        f"{float(rres[sv][k])!r} with backend={rbe!r}, all other options equal (|diff| {d[k]:.3g} > kernels' rounding budget {tol[k]:.3g}; "
+                        f"Gyy={float(ing.S00[k]):.6g})", {"bin": k, "backend_ref": rbe, "observed": float(res[sv][k]), "expected": float(rres[sv][k]),
+                                                         "tol": float(tol[k])})
+        c.pop("_S00", None)
+
+
+def sweep_stream(ck: "Checker", ctx, seed: int, intensive: bool) -> None:
+    """every (backend, order) pair on every run, for q = 1 (SISO / numeric / analytic) and q = 2 (numeric / analytic); the scheduler of a pair
+    rotates with VERIF_SEED (four consecutive seeds: backend x order x scheduler complete); thorough / intensive: more rounds, q = 3, every
+    sub-claim under every backend"""
+    import time as _t
+    P = ck.P
+    rng = np.random.default_rng(int(seed))
+    backends = sweep_backends()
+    rounds = 6 if ctx.thorough else (2 if intensive else 1)
+    cap = 90.0 if ctx.thorough else (60.0 if intensive else 45.0)
+    t0 = _t.time()
+    done = 0
+    for rnd in range(rounds):
+        rot = int(ctx.seed) + rnd
+        # quick tier: round 0 is the same whether or not an obligation is broken; the extra round of the failing-input search and every thorough
+        # round evaluate all sub-claims with all solvers under every backend
+        full = bool(ctx.thorough or rnd > 0)
+        qs = [1, 3] if (ctx.thorough and rnd % 2 == 1) else [1, 2]
+        for oi, order in enumerate(ORDERS):
+            for qi, q in enumerate(qs):
+                if ctx.time_left() < 40 or _t.time() - t0 > cap:
+                    P.notes.append(f"option sweep: time budget reached after {done} groups")
+                    return
+                c0 = build_sweep_case(int(rng.integers(0, 2 ** 62)), q, ctx.thorough)
+                c0["kw"]["order"] = order
+                c0["kw"]["scheduler"] = SCHEDS_ALL[(oi + rot + 2 * qi) % 4]
+                sweep_fit_plan(c0)
+                sweep_group(ck, c0, backends, full, rot=rot + oi)
+                done += 1
+                if done <= 2:
+                    P.sample({"op": "oracle-option-sweep", **case_desc(dict(c0, group_backends=backends))})
+                if len(P.violations) >= 8:
+                    return
+    P.notes.append(f"option sweep: {done} groups x backends {backends} in {_t.time() - t0:.1f}s")
+
+
+
 # ------------------------------------------------------------------------------------------------ corpus: defect D14 (thorough tier)
 # D14 (fixed by /repo commit a8eaa1b "MISO_numeric caches the pairwise input spectra under unambiguous keys"): before the fix the helper get_ltf_result
 # memoised the pair (i, j) under f"T{i+1}{j+1}"; from 112 inputs on two pairs share a key ("T1112" = (1,112) = (11,12)), Tmat received the cross-spectrum
@@ -1336,13 +1638,26 @@ def oracle(ctx, intensive: bool = False, hints: List[Dict[str, Any]] = ()) -> C.
     # corpus first: D2 witness (coupling with a delay)
     ck.check_case(d2_witness())
     P.sample({"op": "oracle-corpus", **case_desc(d2_witness())})
-    if ctx.thorough or intensive:
-        # corpus D14 (q = 112, about one minute): thorough tier, and whenever an obligation is broken (failing-input search); in a green quick run the
-        # all-q key-injectivity theorems stand for it
+    # analysis-option sweep (every backend x order pair on every run, a few seconds): before everything that is long; seeded from VERIF_SEED without
+    # consuming ctx.rng, and its run time is added to the cap of the generated-case stream below, which therefore keeps the budget it had
+    import time as _t
+    t_sw = _t.time()
+    try:
+        sweep_stream(ck, ctx, int(np.random.default_rng([int(ctx.seed), 0x5EE9]).integers(0, 2 ** 62)), intensive)
+    except Exception as ex:
+        P.notes.append(f"option sweep aborted: {ex!r}"[:200])
+    if not ctx.thorough:
+        cap_s += _t.time() - t_sw          # (thorough tier: the sweep's <= 90 s come out of the 540 s of the generated-case stream)
+
+    def run_d14():
+        # corpus D14 (q = 112, one minute on an idle machine, several on a busy one): thorough tier, and whenever an obligation is broken
+        # (failing-input search); in a green quick run the all-q key-injectivity theorems stand for it
         try:
             check_d14(ck)
         except Exception as ex:
             P.notes.append(f"corpus D14 aborted: {ex!r}"[:200])
+    if ctx.thorough:
+        run_d14()
     try:
         edge_stream(ck, np.random.default_rng(int(ctx.rng.integers(0, 2 ** 62))))
     except Exception as ex:
@@ -1380,6 +1695,13 @@ def oracle(ctx, intensive: bool = False, hints: List[Dict[str, Any]] = ()) -> C.
             P.sample({"op": "oracle", **case_desc(c)})
         if len(P.violations) >= 8:
             break
+    if intensive and not ctx.thorough and not P.violations:
+        # quick tier with a broken obligation: the D14 witness runs LAST (at the start it used up the whole 240 s budget of the failing-input search
+        # on a busy machine: option sweep, representation stream and generated cases did not run at all) and only if the generated streams found nothing
+        if ctx.time_left() >= 60:
+            run_d14()
+        else:
+            P.notes.append("corpus D14 (q = 112) not run: less than 60 s of the budget left after the generated streams")
     P.notes.append("worst observed/tolerance per sub-claim: " + ", ".join(f"{k}={v:.3g}" for k, v in sorted(ck.worst.items())))
     return P
 
@@ -1405,6 +1727,17 @@ def replay(ctx, data) -> C.Part:
             if case_digest(c) != cd.get("digest"):
                 P.notes.append(f"replay: regenerated records differ from the stored digest for representation case {cd['sub_seed']}")
             check_repr(ck, c, ["siso", "numeric", "analytic"])
+            continue
+        if cd.get("stream") == "sweep":
+            c0 = build_sweep_case(cd["sub_seed"], cd["q"], bool(cd.get("big", False)))
+            if case_digest(c0) != cd.get("digest"):
+                P.notes.append(f"replay: regenerated records differ from the stored digest for option-sweep case {cd['sub_seed']}")
+            kw = dict(cd["kw"])
+            be = kw.pop("backend", None)
+            if "band" in kw:
+                kw["band"] = tuple(float(t) for t in kw["band"])
+            c0["kw"] = kw
+            sweep_group(ck, c0, list(cd.get("group_backends") or ([be] if be else sweep_backends())), full=True)
             continue
         if cd["sub_seed"] == -14:
             check_d14(ck)
